@@ -24,9 +24,9 @@ pub fn property() -> Property {
         rule: "(interval, timeout) pairs in whole seconds (grid {1,2,3,5,10,29,30,31,60,120}^2 in quick, 1..60 squared in thorough, plus random pairs) x peer = real server session over pipes with a one-way delay (round trip < timeout) or scripted peer answering each request after a generated delay and falling silent (neither reading nor writing) never / before the first request / between request and response / after k exchanges, with and without stream traffic, pipe capacity above and below the traffic volume. Oracles (HeartbeatSpec, DESIGN A.3): safe - while every request is answered within the timeout the session stays open over >= 40 intervals; detect - once the peer is silent the session is closed no later than last answer + timeout + interval (+ 150 ms polling slack) and a blocked reader is released; answer - the real server answers every request. Non-trivial = timeout <= interval, or round trip > timeout/2, or silence starting between a request and its response, or traffic exceeding the pipe capacity. Distinct = distinct serialized case.",
         assumptions: vec![
             "tokio paused clock with auto-advance; is_closed sampled every 100 ms of virtual time",
-            "the client maps -I/-T to the monitor unchanged (client.rs), checked separately in the Lab-S glue family when built",
+            "Lab-S `glue` family (real time, whole seconds 1-3): the real Client against the reference server, peer answering or silent from the start",
         ],
-        families: vec![(Box::new(BeatFam), 8_000, 64_000)],
+        families: vec![(Box::new(BeatFam), 8_000, 64_000), (Box::new(GlueFam), 4, 40)],
     }
 }
 
@@ -398,6 +398,99 @@ impl Family for BeatFam {
         out.class_if(obs.silent_from.is_some(), "peer-fell-silent");
         out.class_if(case.real_server, "real-server");
         out.class_if(case.traffic && case.small_pipe, "traffic>capacity");
+        Ok(out)
+    }
+}
+
+// ------------------------------------------------------------------------------------------
+// family `glue` (Lab-S, real time): the real Client hands its -I / -T settings to the monitor
+
+use crate::lab_sock::refpeer::{Behaviour, RefServer};
+use crate::lab_sock::{PASSWORD, infra, run_real, wait_until};
+
+#[derive(Clone, Debug, Serialize, Deserialize)]
+pub struct GlueCase {
+    pub interval_s: u64,
+    pub timeout_s: u64,
+    pub peer_answers: bool,
+}
+
+pub struct GlueFam;
+
+impl Family for GlueFam {
+    type Case = GlueCase;
+    fn name(&self) -> &'static str {
+        "glue"
+    }
+    fn strategy(&self, _tier: Tier) -> BoxedStrategy<GlueCase> {
+        (1u64..=2, 1u64..=3, any::<bool>()).prop_map(|(interval_s, timeout_s, peer_answers)| GlueCase { interval_s, timeout_s, peer_answers }).boxed()
+    }
+    fn fixed_cases(&self, _tier: Tier) -> Vec<GlueCase> {
+        vec![
+            GlueCase { interval_s: 1, timeout_s: 3, peer_answers: false },
+            GlueCase { interval_s: 2, timeout_s: 1, peer_answers: false },
+            GlueCase { interval_s: 2, timeout_s: 1, peer_answers: true },
+            GlueCase { interval_s: 1, timeout_s: 2, peer_answers: true },
+        ]
+    }
+    fn case_budget_s(&self) -> u64 {
+        90
+    }
+    fn run(&self, case: &GlueCase, _cx: &CaseCtx) -> CaseResult {
+        let mut out = Outcome::new();
+        let c = case.clone();
+        let r: Result<(), Fail> = run_real(async move {
+            let case = c;
+            let beh = Behaviour { synack: true, echo: true, heartbeat: case.peer_answers, server_settings: true, scheme: None, schemes: vec![] };
+            let srv = RefServer::start(PASSWORD, beh).await?;
+            let pool = anytls_rs::client::SessionPoolConfig {
+                check_interval: Duration::from_secs(case.interval_s),
+                idle_timeout: Duration::from_secs(case.timeout_s),
+                // keep the pool reaper out of the picture: it never closes the only session
+                min_idle_sessions: 4,
+            };
+            let cfg = anytls_rs::util::tls::create_client_config().map_err(|e| infra(e.to_string()))?;
+            let connector = Arc::new(tokio_rustls::TlsConnector::from(cfg));
+            let name = tokio_rustls::rustls::pki_types::ServerName::IpAddress(srv.addr.ip().into());
+            let client = anytls_rs::client::Client::with_pool_config(PASSWORD, srv.addr.to_string(), name, connector, default_padding(), pool);
+            let t0 = std::time::Instant::now();
+            let (_stream, session) = match tokio::time::timeout(Duration::from_secs(20), client.create_proxy_stream(("10.1.2.3".to_string(), 80))).await {
+                Ok(Ok(x)) => x,
+                other => return Err(infra(format!("create_proxy_stream against the reference server: {:?}", other.map(|r| r.map(|_| ()).map_err(|e| e.to_string()))))),
+            };
+            let i_ms = case.interval_s * 1000;
+            let t_ms = case.timeout_s * 1000;
+            let desc = format!("client built with check interval {} s / idle timeout {} s (the -I / -T options)", case.interval_s, case.timeout_s);
+            if case.peer_answers {
+                // healthy peer: open over 3 intervals + timeout, and one request per interval was seen
+                let horizon = 3 * i_ms + t_ms + 500;
+                tokio::time::sleep(Duration::from_millis(horizon)).await;
+                if session.is_closed() {
+                    return Err(Fail::plain("C14.safe", format!("a session whose peer answers every keep-alive was closed within {horizon} ms ({desc})")));
+                }
+                let reqs = srv.conn(0).map(|c| c.lock().unwrap().frames.iter().filter(|f| f.cmd == crate::reference::codec::HEART_REQ).count()).unwrap_or(0) as u64;
+                let want = horizon / i_ms;
+                if reqs + 1 < want || reqs > want + 2 {
+                    return Err(Fail::plain("C14.answer", format!("{reqs} keep-alive requests reached the server in {horizon} ms, about {want} expected ({desc})")));
+                }
+            } else {
+                // silent peer from the start: closed no earlier than the timeout, no later than timeout + interval
+                let closed = wait_until(t_ms + i_ms + 1500, || session.is_closed()).await;
+                let at = t0.elapsed().as_millis() as u64;
+                if !closed {
+                    return Err(Fail::plain("C14.detect", format!("the peer never answered a keep-alive and the session is still open after {at} ms; bound timeout + interval = {} ms ({desc})", t_ms + i_ms)));
+                }
+                if at + 300 < t_ms {
+                    return Err(Fail::plain("C14.safe", format!("the session was declared dead after {at} ms, before the timeout of {t_ms} ms ({desc})")));
+                }
+            }
+            Ok(())
+        });
+        r?;
+        out.nt(true);
+        out.class_if(case.timeout_s < case.interval_s, "timeout<interval");
+        out.class_if(case.peer_answers, "peer-answers");
+        out.class_if(!case.peer_answers, "silent-peer");
         Ok(out)
     }
 }
